@@ -1763,6 +1763,13 @@ def oracle_foreach(ck, rng, n, tables):
 # =====================================================================
 def run(ck):
     warnings.simplefilter('ignore')
+    # Workflow.run calls seed_random_sources(seed) before every pass when a seed
+    # is set; that forks `ldconfig` through ctypes.util.find_library (0.1-0.2 s
+    # each).  Cache the lookup (pure function of the machine) for this process.
+    import functools
+    import bqskit.utils.random as bq_random
+    if not hasattr(bq_random.find_library, 'cache_info'):
+        bq_random.find_library = functools.lru_cache(None)(bq_random.find_library)
     from translate import fields as tr_fields
     tables = tr_fields.main()
     if os.environ.get('C11_SKIP_LEAN'):      # development only
